@@ -292,7 +292,35 @@ def gen_world(rng, valid_only=False):
             name = fresh("u")
             units.append({"name": name, "ch": ch})
             depth[name] = 1 + max([depth.get(c[0], 0) for c in ch] + [0])
+        if mi == 0 and rng.random() < 0.5:
+            gen_chain(units, depth)
         return units
+
+    def gen_chain(units, depth):
+        """a chain U1 -> U2 -> U3 -> U4 of user units in which an exponent != 1, a multiplier != 1 and a prefix != 0 sit on
+        chosen levels (all 27 combinations of levels 1..3 are drawn uniformly)"""
+        le, lm, lp = rng.choice([1, 2, 3]), rng.choice([1, 2, 3]), rng.choice([1, 2, 3])
+        if rng.random() < 0.5:
+            leaf = fresh("B")
+            units.append({"name": leaf, "ch": []})
+            depth[leaf] = 0
+        else:
+            leaf = fresh("c")
+            units.append({"name": leaf, "ch": [(rng.choice(stdnames), rng.choice(["", "", rng.choice(COMMON_PREFIX)]),
+                                                rng.choice(EXPS), Fr(rng.choice([0, 0, 1, -3])))]})
+            depth[leaf] = 1
+        below = leaf
+        for level in (3, 2, 1):
+            ex = rng.choice([Fr(2), Fr(-1), Fr(3), Fr(-2), Fr(1, 2), Fr(-1, 2)]) if le == level else Fr(1)
+            ml = Fr(rng.choice([1, -1, 2, -2, 3, -3])) if lm == level else Fr(0)
+            pre = rng.choice(COMMON_PREFIX + ["3", "-2", "+1", "-6"]) if lp == level else ""
+            ch = [(below, pre, ex, ml)]
+            if rng.random() < 0.3:
+                ch.insert(rng.randrange(2), (rng.choice(stdnames), "", Fr(1), Fr(0)))
+            name = fresh("c")
+            units.append({"name": name, "ch": ch})
+            depth[name] = depth[below] + 1
+            below = name
 
     models_by_index = {}
     total = 1 + nlib
@@ -306,6 +334,217 @@ def gen_world(rng, valid_only=False):
     if loose:
         models.append({"kind": "L", "units": [{"name": n, "ch": []} for n in loose]})
     return World(models)
+
+
+def level_coverage(w, cov):
+    """cov[(le, lm, lp)] += 1 for every reference path from a units of model 0 on which an exponent != 1 sits on level le, a
+    multiplier != 1 on level lm and a prefix != 0 on level lp (levels counted from the top units, 4 = 4 or deeper)"""
+    def go(mi, name, level, E, M, P, depth):
+        u = w.get(mi, name)
+        if u is None or "imp" in u or depth > 8:
+            return
+        for ref, pre, ex, ml in u["ch"]:
+            lv = min(level, 4)
+            E2 = E | ({lv} if ex != 1 else set())
+            M2 = M | ({lv} if ml != 0 else set())
+            P2 = P | ({lv} if prefix_value(pre) not in (0, None) else set())
+            t = w.get(mi, ref) if ref not in SI else None
+            if t is not None and "ch" in t and t["ch"]:
+                go(mi, ref, level + 1, E2, M2, P2, depth + 1)
+            else:
+                for a in E2:
+                    for b in M2:
+                        for c in P2:
+                            cov[(a, b, c)] = cov.get((a, b, c), 0) + 1
+    for (mi, name) in w.tops:
+        if mi == 0:
+            go(mi, name, 1, set(), set(), set(), 0)
+
+
+def valid_subworld(w):
+    """model 0 restricted to the units the validator accepts (closure without imports, missing references and invalid
+    prefixes) plus the parent-less standard units: what the analyser can be run on"""
+    keep = []
+    for u in w.models[0]["units"]:
+        if "ch" not in u:
+            continue
+        f = w.facts(0, u["name"])
+        if w.defined(0, u["name"]) and not f["imports"] and not f["bad_prefix"]:
+            keep.append(u)
+    models = [{"kind": "M", "units": keep}] + [m for m in w.models if m["kind"] == "L"]
+    return World(models)
+
+
+def pair_names(w):
+    return [nm for (mi, nm) in w.tops if mi == 0 or w.models[mi]["kind"] == "L"]
+
+
+def parse_units_text(t):
+    """'10^3 x metre x second^-2' -> (Fraction scale, {name: Fraction}); None when it cannot be read"""
+    scale = Fr(0)
+    dims = {}
+    try:
+        for it in t.split(" x "):
+            if it.startswith("10^"):
+                scale = Fr(float(it[3:])).limit_denominator(1 << 20)
+            elif "^" in it:
+                n, e = it.split("^")
+                dims[n] = Fr(float(e)).limit_denominator(1 << 20)
+            else:
+                dims[it] = Fr(1)
+    except ValueError:
+        return None
+    return scale, dims
+
+
+def side_reduction(text):
+    """one half of the analyser's warning -> ('shown', scale, dims) | ('name', dims-of-the-name) | ('dimensionless',) | None"""
+    import re
+    m = re.search(r"\(i\.e\. '([^']*)'\)", text)
+    if m:
+        r = parse_units_text(m.group(1))
+        return None if r is None else ("shown",) + r
+    if "is 'dimensionless'" in text:
+        return ("dimensionless",)
+    m = re.search(r" is in '([^']*)'", text)
+    if m:
+        r = parse_units_text(m.group(1))
+        return None if r is None else ("name", r[1])
+    return None
+
+
+def truncated_hint(q):
+    """what validator.cpp prints after 10^ for a log10 multiplier q: std::to_string, trailing zeros erased, then the LAST
+    CHARACTER erased (regex ".$") — right for integers ("3." -> "3"), a digit short otherwise"""
+    t = "%f" % float(q)
+    t = t.rstrip("0")
+    return float(t[:-1]) if t[:-1] not in ("", "-") else 0.0
+
+
+def check_VB(ctx, w, il, ml, st):
+    """public validator route on every ordered pair: issue <=> model status false; hint = model multiplier"""
+    out = []
+    names = pair_names(w)
+    n = len(names)
+    secs = ml.split("|")
+    if not il.startswith("n=") or len(secs) != 2:
+        return [("validator route: impl %s / model %s" % (il[:50], ml[:50]), None)]
+    mp = secs[1].split()
+    if len(mp) != n * n:
+        return [("validator route: model line has %d pairs for %d names" % (len(mp), n), None)]
+    got = {}
+    for t in il.split()[1:]:
+        k, h = t.split(":")
+        if k in got:
+            out.append(("validator reports the connection %s twice" % k, None))
+        got[k] = h
+    for i in range(n):
+        for j in range(n):
+            v = mp[i * n + j].split(";")[0]
+            if v in ("F", "X"):
+                out.append(("validator model %s on (%s,%s)" % (v, names[i], names[j]), None))
+                continue
+            s_, q_ = v.split(",")
+            q = parse_q(q_)
+            key = "%d_%d" % (i, j)
+            st["pairs"] += 1
+            if (key in got) != (s_ == "0"):
+                out.append(("validator route (%s,%s): units issue reported=%d, model status=%s" % (names[i], names[j], key in got, s_), None))
+                continue
+            if key in got:
+                st["issues"] += 1
+                h = got[key]
+                if (h == "none") != (q == 0):
+                    out.append(("validator route (%s,%s): hint %s, model multiplier %s" % (names[i], names[j], h, q), None))
+                elif h != "none":
+                    st["hints"] += 1
+                    if abs(float(h) - float(q)) <= 1e-6 * max(1.0, abs(float(q))):
+                        pass
+                    elif q.denominator != 1 and abs(float(h) - truncated_hint(q)) <= 1e-9:
+                        out.append(("validator route (%s,%s): hint 10^%s for the multiplier 10^%s" % (names[i], names[j], h, q),
+                                    "C08-validator-hint-last-digit"))
+                    else:
+                        out.append(("validator route (%s,%s): hint 10^%s, model multiplier %s" % (names[i], names[j], h, q), None))
+    return out
+
+
+def check_AB(ctx, w, il, ml, st, units_equiv):
+    """public analyser route on every ordered pair of a validator-accepted world: warning <=> model ana_equiv false; the
+    reduction printed for each side = model ana_scale / ana_map; oracle: warning <=> not Units::equivalent"""
+    out = []
+    names = pair_names(w)
+    n = len(names)
+    secs = ml.split("|")
+    if not il.startswith("errors=") or len(secs) != 2:
+        return [("analyser route: impl %s / model %s" % (il[:50], ml[:50]), None)]
+    head = il.split(";")[0]
+    if int(field(head, "errors")) > 0:
+        return [("analyser route: the generated world is not accepted: %s" % head, None)]
+    per = secs[0].split()
+    mp = secs[1].split()
+    if len(per) != n or len(mp) != n * n:
+        return [("analyser route: model line has %d names / %d pairs for %d names" % (len(per), len(mp), n), None)]
+    red = []
+    for t in per:
+        sc, m = t.split(";")
+        if sc in ("F", "X") or m in ("F", "X"):
+            red.append(None)
+        else:
+            red.append((parse_q(sc), {} if m == "{}" else {kv.split("=")[0]: parse_q(kv.split("=")[1]) for kv in m.split(",")}))
+    recs = {}
+    for r in il.split(";")[1:]:
+        parts = r.split("#")
+        if len(parts) != 3 or parts[0] == "?":
+            st["unparsed"] += 1
+            continue
+        recs[parts[0]] = (parts[1], parts[2])
+    fa = [w.facts(*_find(w, x)) for x in names]
+
+    def side_ok(text, exp, what):
+        sr = side_reduction(text)
+        if sr is None:
+            st["unparsed"] += 1
+            return
+        st["sides_compared"] += 1
+        if sr[0] == "shown":
+            if sr[1] != exp[0] or sr[2] != exp[1]:
+                out.append(("analyser prints %s as 10^%s %s, model ana_scale/ana_map = 10^%s %s" % (what, sr[1], sr[2], exp[0], exp[1]), None))
+        elif sr[0] == "dimensionless":
+            if exp[0] != 0 or exp[1]:
+                out.append(("analyser prints %s as dimensionless, model = 10^%s %s" % (what, exp[0], exp[1]), None))
+        else:
+            if exp[0] != 0 or (exp[1] and exp[1] != sr[1]):
+                out.append(("analyser prints %s without a reduction, model = 10^%s %s" % (what, exp[0], exp[1]), None))
+
+    for i in range(n):
+        if red[i] is None:
+            out.append(("analyser model fails on %s" % names[i], None))
+            continue
+        key = "%d_r" % i
+        if key not in recs:
+            out.append(("no units warning for %s against a fresh base unit" % names[i], None))
+        else:
+            side_ok(recs[key][0], red[i], names[i])
+        for j in range(n):
+            if red[j] is None:
+                continue
+            a = mp[i * n + j].split(";")[1]
+            key = "%d_%d" % (i, j)
+            st["pairs"] += 1
+            if a not in "01" or (key in recs) != (a == "0"):
+                out.append(("analyser route (%s,%s): units warning=%d, model ana_equiv=%s" % (names[i], names[j], key in recs, a), None))
+                continue
+            if key in recs:
+                st["warnings"] += 1
+                side_ok(recs[key][0], red[i], names[i])
+                side_ok(recs[key][1], red[j], names[j])
+            ue = units_equiv(names[i], names[j])
+            if ue is not None and (key not in recs) != ue:
+                inC = not any(f["exp_ne1"] or f["scaled_compound_ref"] for f in (fa[i], fa[j]))
+                out.append(("analyser says the units of '%s = %s' are %sequivalent, Units::equivalent says %s" %
+                            (names[i], names[j], "" if key not in recs else "not ", ue),
+                            "C08-three-formulas-disagree" if not inC else None))
+    return out
 
 
 # ----------------------------------------------------------------------------- parsing of driver output
@@ -548,6 +787,8 @@ def oracle_P(ctx, w, il, stats):
 # ----------------------------------------------------------------------------- running
 
 def run_sharded(exe, lines, workdir, tag, extra=(), timeout=3000):
+    """run a driver over the case lines, sharded over the cores; outputs go to files (a pipe would make the shards wait for
+    one another once 64 KiB are pending)"""
     nsh = min(vf.NCPU, max(1, len(lines) // 20))
     procs = []
     for k in range(nsh):
@@ -555,17 +796,20 @@ def run_sharded(exe, lines, workdir, tag, extra=(), timeout=3000):
         with open(p, "w") as f:
             for l in lines[k::nsh]:
                 f.write(l + "\n")
-        procs.append(subprocess.Popen([exe, p] + list(extra), stdout=subprocess.PIPE, stderr=subprocess.DEVNULL))
+        o = open(p + ".out", "w")
+        procs.append((subprocess.Popen([exe, p] + list(extra), stdout=o, stderr=subprocess.DEVNULL), o, p + ".out"))
     out = [None] * len(lines)
-    for k, pr in enumerate(procs):
+    for k, (pr, o, path) in enumerate(procs):
         try:
-            o = pr.communicate(timeout=timeout)[0].decode("utf-8", "replace").split("\n")
+            pr.wait(timeout=timeout)
         except subprocess.TimeoutExpired:
             pr.kill()
-            o = []
+        o.close()
+        res = open(path, errors="replace").read().split("\n")
         idx = list(range(k, len(lines), nsh))
         for t, i in enumerate(idx):
-            out[i] = o[t] if t < len(o) and o[t] != "" else "<missing>"
+            out[i] = res[t] if t < len(res) and res[t] != "" else "<missing>"
+        os.remove(path)
     return out
 
 
@@ -622,7 +866,7 @@ def run(ctx):
         raise vf.BuildError("model driver does not report its fix setting: %r" % current)
     ctx.notes.append("model compared with /repo under current_fixes (fx_import fx_std fx_pop) = %s" % current)
 
-    nworlds = 4000 if quick else 30000
+    nworlds = 3000 if quick else 20000
     worlds = []
     cdir = os.path.join(vf.ROOT, "corpus", "C08")
     corpus = []
@@ -636,7 +880,18 @@ def run(ctx):
     ctx.log("generated %d worlds" % len(worlds))
     il = run_sharded(drv, lines, ctx.workdir, "p_impl")
     ml = run_sharded(mdl, lines, ctx.workdir, "p_model")
+    # the two public routes, batched over every ordered pair of names of every world
+    vblines = [w.line("VB") for w in worlds]
+    subworlds = [valid_subworld(w) for w in worlds]
+    ablines = [sw.line("AB") for sw in subworlds]
+    vbi = run_sharded(drv, vblines, ctx.workdir, "vb_impl")
+    vbm = run_sharded(mdl, vblines, ctx.workdir, "vb_model")
+    abi = run_sharded(drv, ablines, ctx.workdir, "ab_impl")
+    abm = run_sharded(mdl, ablines, ctx.workdir, "ab_model")
     ctx.log("drivers done")
+    vbstats = {"pairs": 0, "issues": 0, "hints": 0}
+    abstats = {"pairs": 0, "warnings": 0, "sides_compared": 0, "unparsed": 0}
+    levelcov = {}
 
     stats = {k: 0 for k in ["pairs_defined", "pairs_compatible", "pairs_compatible_distinct", "si_checked", "triples",
                             "validator_pairs", "validator_agree_in_fragment"]}
@@ -694,6 +949,26 @@ def run(ctx):
         probs = oracle_P(ctx, w, il[wi], stats)
         if stats["pairs_compatible_distinct"] > before:
             nontrivial.add(lines[wi])
+        level_coverage(w, levelcov)
+        # public routes on every pair
+        pi = parse_impl_P(il[wi], w)
+        idx = {nm: k for k, (mi, nm) in enumerate(w.tops) if mi == 0 or w.models[mi]["kind"] == "L"}
+
+        def units_equiv(n1, n2, pi=pi, idx=idx):
+            return None if pi is None else pi[0][idx[n1]][idx[n2]][1]
+        evals += 2 * len(pair_names(w)) ** 2
+        for mode, plist, case, iout, mout in (
+                ("VB", check_VB(ctx, w, vbi[wi], vbm[wi], vbstats), vblines[wi], vbi[wi], vbm[wi]),
+                ("AB", check_AB(ctx, subworlds[wi], abi[wi], abm[wi], abstats, units_equiv), ablines[wi], abi[wi], abm[wi])):
+            bad = [(what, fid) for what, fid in plist if not (fid and ctx.known_finding(fid, what))]
+            if bad:
+                nviol += 1
+                if nviol <= 5:
+                    ctx.violation("C08 %s: %s" % ("validator route" if mode == "VB" else "analyser route", bad[0][0]),
+                                  "%s_%d.json" % (mode.lower(), nviol),
+                                  {"mode": mode, "case": case, "world": _json(w), "impl": iout[:20000], "model": mout[:20000],
+                                   "problem": bad[0][0], "all_problems": [b[0] for b in bad[:20]],
+                                   "finding_class_not_listed": bad[0][1]})
         for what, fid in probs:
             if fid and ctx.known_finding(fid, what):
                 continue
@@ -769,7 +1044,14 @@ def run(ctx):
                        "unitsAreEquivalent, on both sides. non-trivial = the world contains two different units objects that the implementation "
                        "finds compatible; distinct by case text")
     ctx.cov["samples"] = [lines[len(corpus)], lines[-1], vlines[0], alines[0]]
+    lv = {"exponent_level x multiplier_level x prefix_level -> reference paths":
+          {"%d%d%d" % k: v for k, v in sorted(levelcov.items())},
+          "combinations_of_levels_1_to_3_covered": sum(1 for a in (1, 2, 3) for b in (1, 2, 3) for c in (1, 2, 3) if levelcov.get((a, b, c))),
+          "of": 27}
+    ctx.log("VB: %s; AB: %s; level coverage %d/27" % (vbstats, abstats, lv["combinations_of_levels_1_to_3_covered"]))
+    ctx.cov["level_coverage"] = lv
     ctx.cov["input_distribution"] = {"worlds": len(worlds), "histogram": hist, "pair_statistics": stats,
+                                     "validator_route_all_pairs": vbstats, "analyser_route_all_pairs": abstats,
                                      "validator_route": dict(vstats, cases=len(vcases)), "analyser_route": dict(astats, cases=len(acases))}
     ctx.cov["traces_validated_against_impl"] = len(worlds) + len(vcases) + len(acases)
 
